@@ -68,6 +68,15 @@ def handle (cmd : String) (args : List String) : Option String :=
   | "io.layer", [d, r, c] => do
     let d ← parseInt? d; let r ← parseOptSlice? r; let c ← parseIntList? c
     pure ("ok " ++ fmtPairs (layerSlices ⟨d, r, c⟩))
+  | "io.layer", [d, r, c, mask] => do
+    -- `mask`: one `0`/`1` per block; `0` = the block's slice is not observable on the
+    -- implementation side (empty eager NumPy view) and prints as `?`
+    let d ← parseInt? d; let r ← parseOptSlice? r; let c ← parseIntList? c
+    let ls := layerSlices ⟨d, r, c⟩
+    let ms := mask.toList
+    if ms.length ≠ ls.length then none else
+    pure ("ok " ++ (if ls.isEmpty then "_" else
+      ";".intercalate ((ls.zip ms).map (fun pm => if pm.2 = '1' then fmtPair pm.1 else "?"))))
   | "io.efflen", [d, r] => do
     let d ← parseInt? d; let r ← parseOptSlice? r
     pure s!"ok {effLen r d}"
@@ -77,7 +86,7 @@ def handle (cmd : String) (args : List String) : Option String :=
     let c ← parseIntLL? c
     let ix ← (splitBar ix).mapM parseIdx?
     let isz ← parseInt? isz; let lim ← parseInt? lim
-    if r.length ≠ d.length ∨ c.length ≠ d.length ∨ ix.length > d.length then none else
+    if r.length ≠ d.length ∨ c.length ≠ d.length ∨ (ix.filter (· ≠ Idx.newaxis)).length > d.length then none else
     match acceptSlice (mkAxes d r c) ix (nd = "1") isz lim with
     | none => pure "decline"
     | some a =>
